@@ -1,5 +1,6 @@
 import IrVerif.Drive.Util
 import IrVerif.Model.LinkedSet
+import IrVerif.Model.Traversal
 /-! Protocol handler for `Model/LinkedSet.lean`.
 
 `lset.run`: `{"init":[v..], "ops":[{"o":...}..], "snap":bool}` runs one whole history on the
@@ -136,6 +137,12 @@ def stepOp (st : RunSt) (j : Json) : Except String (RunSt × Json) := do
     let v ← getNat j "v"
     return (st, Json.bool (contains st.s v))
   | "len" => return (st, optNatJ (len st.s))
+  | "slice" =>
+    -- `c[a:b:k]` (missing bound = absent / null field); null answer = ValueError (step 0)
+    let oi (key : String) : Option Int := (j.getObjValAs? Int key).toOption
+    return (st, match getSlice st.s (oi "a") (oi "b") (oi "k") with
+      | some l => natsJ l
+      | none => Json.null)
   | _ => throw s!"unknown op {o}"
 
 def run (j : Json) : Except String Json := do
@@ -276,12 +283,136 @@ def runRec (j : Json) : Except String Json := do
     let (st', r) ← recOp fuel st o
     st := st'
     out := out.push r
+  -- the decidable hypotheses of the C11_rec_*_acyclic theorems, evaluated on the final world
+  -- (`homediv`: node v has home graph v / homediv)
+  let shape := match (j.getObjValAs? Nat "homediv").toOption with
+    | some hd =>
+      let home : Nat → Nat := fun v => v / hd
+      obj [("acyclic_f", Json.bool (st.w.acyclic .fwd)), ("acyclic_r", Json.bool (st.w.acyclic .rev)),
+           ("static_f", Json.bool (st.w.acyclicStatic .fwd home)), ("static_r", Json.bool (st.w.acyclicStatic .rev home)),
+           ("homed", Json.bool (st.w.homedOk home)), ("unshared", Json.bool (st.w.unshared 0)),
+           ("tree", Json.bool (st.w.treeShape home 0))]
+    | none => Json.null
+  return obj [("steps", Json.arr out), ("shape", shape)]
+
+/-! `lset.trav`: the recursive iterator with lazily read, editable attributes (`Model/Traversal.lean`).
+`{"sets":[[v..]..], "attrs":[[v,[[k,<aval>]..]]..], "recf":null|[v..], "ops":[..]}`; `<aval>` =
+`{"g":h}` | `{"gs":[h..]}` | `{"x":0}`; the initial dicts are built by inserting the keys in order.
+Ops: `iter{rev,g}`, `next{k}` (`out`, `r`), `edit{g,e}` (`r`, `L`), `seta{v,k,a}`, `dela{v,k}` (`r`),
+`drain{k}` (`out`, `r`, and `spec` = `tStackSpec` evaluated before draining, `sync` = every frame's
+dict iterator is in step).  Every answer carries `acyc` (no graph nested in itself, both
+directions), `ok` (cursor validity of every frame of every iterator) and `inv`. -/
+
+def parseAVal (j : Json) : Except String AVal :=
+  match j.getObjValAs? Nat "g" with
+  | .ok h => return .graph h
+  | .error _ =>
+    match getNats j "gs" with
+    | .ok hs => return .graphs hs
+    | .error _ => return .other
+
+structure TravSt where
+  w : TWorld
+  its : Array (Dir × List TFrame)
+
+def travFlags (st : TravSt) : List (String × Json) :=
+  [("acyc", Json.bool (st.w.acyclic .fwd && st.w.acyclic .rev)),
+   ("ok", Json.bool (st.its.all fun (_, fs) => fs.all (fun fr => fr.validB st.w))),
+   ("inv", Json.bool (st.w.sets.all invOk))]
+
+/-- the hypotheses of C11_trav_finished_not_visited evaluated for every iterator at an edit of the
+    attributes of node `v` (`fin`: `v` is finished for that iterator), and its conclusion (`finok`) -/
+def finishedJ (st : TravSt) (w' : TWorld) (v : Nat) : List (String × Json) :=
+  let k := st.w.sets.length + 1
+  let rs := st.its.map fun (d, stack) =>
+    let sp := tStackSpec (tVisit st.w d k) st.w d stack
+    let fin := stack.all (fun fr => !(fr.ownNodes st.w d).contains v) &&
+      sp.all (fun o => match o with
+        | .yield _ x => x != v
+        | _ => true)
+    (fin, !fin || tStackSpec (tVisit w' d k) w' d stack == sp)
+  [("fin", Json.arr (rs.map fun r => Json.bool r.1)), ("finok", Json.bool (rs.all fun r => r.2))]
+
+def travOp (fuel : Nat) (st : TravSt) (j : Json) : Except String (TravSt × List (String × Json)) := do
+  let o ← getStr j "o"
+  match o with
+  | "iter" =>
+    let rev ← getBool j "rev"
+    let d := if rev then Dir.rev else Dir.fwd
+    let g := (j.getObjValAs? Nat "g").toOption.getD 0
+    return ({ st with its := st.its.push (d, tStart g) }, [("r", toJson st.its.size)])
+  | "next" =>
+    let k ← getNat j "k"
+    match st.its[k]? with
+    | some (d, stack) =>
+      let r := tNext st.w d fuel stack
+      return ({ st with its := st.its.setIfInBounds k (d, r.1) }, [("out", outsJ r.2.1), ("r", resJ r.2.2)])
+    | none => throw "bad iterator"
+  | "drain" =>
+    let k ← getNat j "k"
+    match st.its[k]? with
+    | some (d, stack) =>
+      let r := tDrain st.w d fuel stack
+      let sp := tStackSpec (tVisit st.w d (st.w.sets.length + 1)) st.w d stack
+      return ({ st with its := st.its.setIfInBounds k (d, []) },
+        [("out", outsJ r.1), ("r", resJ r.2), ("spec", outsJ sp),
+         ("sync", Json.bool (stack.all fun fr => fr.synced st.w))])
+    | none => throw "bad iterator"
+  | "edit" =>
+    let g ← getNat j "g"
+    let e ← j.getObjVal? "e"
+    let op ← parseOp e
+    let r := st.w.applyAt g op
+    return ({ st with w := r.1 },
+      [("r", Json.bool r.2), ("L", Json.arr (r.1.sets.map (fun s => natsJ (toList s))).toArray)])
+  | "seta" =>
+    let v ← getNat j "v"
+    let k ← getNat j "k"
+    let a ← parseAVal (← j.getObjVal? "a")
+    let w' := st.w.setAttr v k a
+    return ({ st with w := w' }, [("r", Json.bool true)] ++ finishedJ st w' v)
+  | "dela" =>
+    let v ← getNat j "v"
+    let k ← getNat j "k"
+    let r := st.w.delAttr v k
+    return ({ st with w := r.1 }, [("r", Json.bool r.2)] ++ finishedJ st r.1 v)
+  | _ => throw s!"unknown op {o}"
+
+def runTrav (j : Json) : Except String Json := do
+  let setsJ ← getArr j "sets"
+  let mut sets : List LSet := []
+  for sj in setsJ do
+    let vs : Array Nat ← fromJson? sj
+    sets := sets ++ [(extend empty vs.toList).1]
+  let mut w : TWorld := ⟨sets, [], (getNats j "recf").toOption⟩
+  for aj in (← getArr j "attrs") do
+    let pair : Array Json ← fromJson? aj
+    match pair[0]?, pair[1]? with
+    | some vj, some lj =>
+      let v : Nat ← fromJson? vj
+      let items : Array Json ← fromJson? lj
+      for it in items do
+        let kv : Array Json ← fromJson? it
+        match kv[0]?, kv[1]? with
+        | some kj, some aj' =>
+          let k : Nat ← fromJson? kj
+          w := w.setAttr v k (← parseAVal aj')
+        | _, _ => throw "bad attr item"
+    | _, _ => throw "bad attrs entry"
+  let fuel := (j.getObjValAs? Nat "fuel").toOption.getD 100000
+  let mut st : TravSt := { w := w, its := #[] }
+  let mut out : Array Json := #[]
+  for o in (← getArr j "ops") do
+    let (st', r) ← travOp fuel st o
+    st := st'
+    out := out.push (obj (r ++ travFlags st))
   return obj [("steps", Json.arr out)]
 
 def handle : Handler := fun m j =>
   match m with
   | "lset.run" => some (run j)
   | "lset.rec" => some (runRec j)
+  | "lset.trav" => some (runTrav j)
   | _ => none
 
 end IrVerif.Drive.LinkedSet
